@@ -62,6 +62,20 @@ CHECKS = {
         "note": "Trusted: TLC; the worker harness attributes a dead worker or exceeded deadline to the single input it was processing; bytes are represented by ASCII plus one UTF-8 letter.",
         "technique": "TLA+ outcome protocol model-checked by TLC + trace validation of recorded Transpile outcomes from sandboxed workers",
     },
+    "C06": {
+        "text": "spec/TshStatic.tla is the static semantics as typing rules (one rule per typed position, pseudo types void/multi never legal operands); TLC evaluates it on every "
+                "case of spec/FamC06.tla (87 positions x offered types x contexts, return positions at any depth, arity/value-count cases) and validates the verdict the real "
+                "transpiler gave for Bash and for Batch (script, or error and no script) against it.",
+        "note": "Trusted: TLC; Appendix E of DESIGN.md as the statement of Go's rules and the README signatures; constructs marked '?' by the specification are not compared.",
+        "technique": "TLA+ typing rules (TshStatic) evaluated by TLC + validation of recorded accept/reject verdicts of both targets",
+    },
+    "C07": {
+        "text": "TLC evaluates spec/TshStatic.tla (block-scoped contexts, function bodies restricted to earlier globals, placement rules) on every (definition site, use site) pair of "
+                "spec/FamC07.tla for variables and functions, every placement of break/continue/return/func in 23 contexts and the redefinition variants, and validates the recorded "
+                "verdict of the real transpiler for both targets.",
+        "note": "Trusted: TLC; the scoping rules of DESIGN.md section 3.2 / 6.1 (no shadowing; break needs an enclosing loop).",
+        "technique": "TLA+ scoping rules (TshStatic) evaluated by TLC over site-pair families + validation of recorded accept/reject verdicts",
+    },
 }
 
 NOT_APPLICABLE = {}
